@@ -112,6 +112,19 @@ def run(ctx):
             t = src(fn)
             ok = ("iter_nested_value((self.args, self.kwargs))" in t and ".is_valid()" in t) or ("is_valid_nested(self.value)" in t)
         r5.check(ok, f"{cm.rel}:{c.name}.is_valid", f"{c.name} does not validate the values nested in {payload} (it inherits Value.is_valid() == True): a cached result of this kind is replayed although a File/Handle inside it changed", cm.rel, c.lineno)
+        if ok and fn is not None:
+            # every nested Value is asked: the only admissible filter of the walk is `isinstance(v, Value)` itself
+            tested = {src(x.args[1]) for x in ast.walk(fn) if isinstance(x, ast.Call) and call_name(x) == "isinstance" and len(x.args) == 2}
+            extra = sorted(t for t in tested if t not in ("Value",))
+            filt = [src(i)[:50] for g in ast.walk(fn) if isinstance(g, ast.comprehension) for i in g.ifs if "isinstance" not in src(i)]
+            r5.check(
+                not extra and not filt,
+                f"{cm.rel}:{c.name}.is_valid:unfiltered",
+                f"{c.name}.is_valid skips some of the values nested in {payload} (extra type tests {extra}, filters {filt}): e.g. an argument that is itself an expression carries "
+                "Files/Handles with their recorded hashes, and skipping it lets a cached result be replayed after such a file changed",
+                cm.rel,
+                fn.lineno,
+            )
 
     # every other Value class that stores caller-supplied argument tuples (self.args / self.kwargs set in __init__) -- e.g. PartialTask -- must
     # validate what is nested in them as well
